@@ -512,3 +512,53 @@ def gen_handlestate(repo):
             f"/-- the state `ParquetFile.__getitem__` (line {gi.lineno}) hands to the derived handle -/\n"
             f"def derived : List String := {q(derived)}\n"
             "end PqV.Gen.HandleState\n")
+
+
+@register("ColumnFilterShape")
+def gen_columnfiltershape(repo):
+    """api.ParquetFile._column_filter: the control skeleton the model Impl.RowFilter.columnFilter assumes."""
+    src = open(os.path.join(repo, "fastparquet", "api.py")).read()
+    tree = ast.parse(src)
+    cls = [n for n in tree.body if isinstance(n, ast.ClassDef) and n.name == "ParquetFile"][0]
+    fns = [n for n in cls.body if isinstance(n, ast.FunctionDef) and n.name == "_column_filter"]
+    if len(fns) != 1:
+        raise Unsupported("ParquetFile._column_filter not found")
+    fn = fns[0]
+    u = lambda n: ast.unparse(n).replace(" ", "")   # noqa: E731
+    # flat list of conditions is wrapped into one AND group before the loop
+    flat_wrap = any(isinstance(n, ast.If) and u(n.test) == "filtersandisinstance(filters[0][0],str)" and
+                    [u(x) for x in n.body] == ["filters=[filters]"] for n in fn.body)
+    loops = [n for n in fn.body if isinstance(n, ast.For)]
+    if len(loops) != 1 or u(loops[0].target) != "or_part":
+        raise Unsupported("_column_filter: expected one loop `for or_part in filters`")
+    top = [n for n in loops[0].body if isinstance(n, ast.If)]
+    if len(top) != 1 or u(top[0].test) != "isinstance(or_part[0],str)":
+        raise Unsupported("_column_filter: expected the single-condition / AND-group split")
+    single, group = top[0].body, top[0].orelse
+
+    def skip_kind(stmts):
+        for n in ast.walk(ast.Module(body=stmts, type_ignores=[])):
+            if isinstance(n, ast.If) and u(n.test) == "nameinself.cats":
+                return type(n.body[0]).__name__.lower()
+        return "none"
+    # the AND accumulator is created inside the OR loop, filled in an inner loop, then OR-ed into the result
+    g = [u(x).split("\n")[0] for x in group]
+    init_inside = bool(group) and u(group[0]) == "and_part=np.ones(len(df),dtype=bool)"
+    inner = [n for n in group if isinstance(n, ast.For)]
+    merges = [u(x) for x in group if isinstance(x, ast.AugAssign)]
+    inner_ops = sorted({type(n.op).__name__ for l in inner for n in ast.walk(l) if isinstance(n, ast.AugAssign)})
+    single_ops = sorted({type(n.op).__name__ for st in single for n in ast.walk(st) if isinstance(n, ast.AugAssign)})
+    out_init = any(u(n) == "out=np.zeros(len(df),dtype=bool)" for n in fn.body)
+    b = lambda x: "true" if x else "false"   # noqa: E731
+    return ("-- REGENERATED on every run by tools/translate_callsites.py from fastparquet/api.py — do not edit\n"
+            "namespace PqV.Gen.ColumnFilterShape\n"
+            f"/-- `_column_filter` (line {fn.lineno}) -/\n"
+            f"def flatListIsOneAndGroup : Bool := {b(flat_wrap)}\n"
+            f"def resultStartsAllFalse : Bool := {b(out_init)}\n"
+            f"def andAccumulatorPerGroup : Bool := {b(init_inside)}\n"
+            f"def skipPartitionInSingle : String := \"{skip_kind(single)}\"\n"
+            f"def skipPartitionInGroup : String := \"{skip_kind(group)}\"\n"
+            f"def groupMerges : List String := [{', '.join(chr(34) + m + chr(34) for m in merges)}]\n"
+            f"def innerOps : List String := [{', '.join(chr(34) + m + chr(34) for m in inner_ops)}]\n"
+            f"def singleOps : List String := [{', '.join(chr(34) + m + chr(34) for m in single_ops)}]\n"
+            "end PqV.Gen.ColumnFilterShape\n")
